@@ -1,5 +1,5 @@
 """C01 - every valid C99 / supported-C11 translation unit is accepted."""
-import subprocess, tempfile
+import os, shutil, subprocess, tempfile
 from lib import *
 from progsuite import *
 import corpus
@@ -34,6 +34,51 @@ def run(ctx, b, broken):
             su.violation(text, f"a program derived from the C99/C11 grammar was rejected: {io[:160]!r}")
         elif len(ctx.samples) < 4:
             ctx.sample({"text": text[:300]})
+    # the system C compiler as an independent judge of validity: whatever gcc accepts under -std=c99 / -std=c11
+    # -pedantic-errors (and that uses no double-underscore extension keyword) must be accepted
+    import semgen
+
+    def gcc_accepts(text, std):
+        with tempfile.NamedTemporaryFile("w", suffix=".c", delete=False) as f:
+            f.write(text)
+        try:
+            p = subprocess.run(["gcc", f"-std={std}", "-pedantic-errors", "-fsyntax-only", "-w", "-x", "c", f.name], capture_output=True, text=True, timeout=60)
+            return p.returncode == 0, p.stderr
+        finally:
+            os.unlink(f.name)
+    have_gcc = shutil.which("gcc") is not None
+    ctx.notes["gcc"] = "available" if have_gcc else "absent: compiler-judged suites skipped"
+    if have_gcc:
+        for i in range(40 if ctx.tier == "quick" else 600):
+            text = semgen.Sem(ctx.rng).program(ctx.rng.randint(1, 3), ctx.rng.randint(1, 3))
+            ok, err = gcc_accepts(text, "c11")
+            ctx.evaluations += 1
+            ctx.count("suite:gcc-semantic" + (":accepted" if ok else ":rejected-by-gcc"))
+            if not ok:
+                continue
+            ctx.nontriv(text)
+            io = impl_parse(text)
+            su.corr(text, io, tag="compiler-accepted programs")
+            if not (io.startswith("OK") or io == "R"):
+                su.violation(text, f"a program gcc -std=c11 -pedantic-errors accepts was rejected: {io[:160]!r}")
+        # grammar-derived programs that happen to be semantically valid as well
+        for g, toks, exp in gen_cases(ctx, 250 if ctx.tier == "quick" else 4000, size=(1, 2)):
+            g.avoid_known = True
+            text, pos = cgen.layout(toks, ctx.rng, "single")
+            if "__" in text:
+                continue
+            std = ctx.rng.choice(["c99", "c11"])
+            ok, err = gcc_accepts(text, std)
+            ctx.evaluations += 1
+            ctx.count(f"suite:gcc-on-grammar-derived:{std}" + (":accepted" if ok else ":rejected-by-gcc"))
+            if not ok:
+                if "expected" in err and "before" in err:
+                    ctx.count("note:gcc-reports-syntax-error-on-grammar-derived")
+                continue
+            ctx.nontriv(text)
+            io = impl_parse(text)
+            if not (io.startswith("OK") or io == "R"):
+                su.violation(text, f"a program gcc -std={std} -pedantic-errors accepts was rejected: {io[:160]!r}")
     texts = corpus.corpus_texts() + (corpus.big_corpus_texts() if ctx.tier == "thorough" else [])
     for name, text in texts:
         ctx.evaluations += 1
